@@ -18,7 +18,7 @@ def defs(t, ft, ut): return ['T=%s' % t, 'FT=%s' % ft, 'UT=%s' % ut]
 def units(tier):
     tv = []
     for t, ft, ut in TYPES:
-        for h in ('h_struct', 'h_annexg_mul', 'h_annexg_div', 'h_scaling', 'h_misc', 'h_scalar'): tv.append((h, defs(t, ft, ut)))
+        for h in ('h_struct', 'h_annexg_mul', 'h_annexg_div', 'h_scaling', 'h_misc', 'h_scalar', 'h_scalar_promote'): tv.append((h, defs(t, ft, ut)))
     return [Unit('cpx', 'wrappers.cpp', ['harness.c'], tv=tv, tv_iters=200000)]
 
 
@@ -34,6 +34,15 @@ def obligations(tier):
                     if Q and (t == 'd' or ref or ieee or name in ('mul', 'div')): continue      # quick: float + and - formula identity; multiplier/divider identities take 5-10 min each
                     obs.append(Ob('%s/struct_%s%s%s' % (ft, name, '_ieee' if ieee else '', '_refclosure' if ref else ''), 'cpx', 'h_struct', defines=d + ['OPFIX=%d' % op, 'IEEEFIX=%d' % ieee] + (['REFCLOSURE'] if ref else []),
                                   unwind=60, backend='cadical', timeout=300 if Q else 3600, bound='all operand bit patterns', min_witnesses=1))
+        if t == 'f':
+            for op, name in ((2, 'mul'),):      # the divider identity on an axis still gave no verdict in 300 s
+                for ax, an in ((1, 'imag_axis'), (2, 'real_axis')):
+                    obs.append(Ob('%s/struct_%s_%s' % (ft, name, an), 'cpx', 'h_struct', defines=d + ['OPFIX=%d' % op, 'IEEEFIX=0', 'AXISFIX=%d' % ax], unwind=60, backend='cadical', timeout=300 if Q else 3600,
+                                  bound='right operand purely imaginary / real, everything else any bit pattern', min_witnesses=0))
+        if t == 'f' or not Q:
+            for op, name in enumerate(['add', 'sub', 'mul', 'div', 'mul_ieee', 'div_ieee']):
+                if name.startswith('div'): continue      # two runs of the float divider: no verdict in 300 s even as a same-circuit equivalence; s / z is only decided by the thorough-tier h_scalar
+                obs.append(Ob('%s/scalar_left_%s' % (ft, name), 'cpx', 'h_scalar_promote', defines=d + ['SOPFIX=%d' % (op if op < 4 else op - 2), 'SIEEEFIX=%d' % (op >= 4)] if op >= 2 else d + ['SOPFIX=%d' % op], unwind=60, backend='cadical', timeout=300 if Q else 3600, bound='all operand bit patterns, both multiplier configurations', min_witnesses=0))
         obs.append(Ob('%s/misc' % ft, 'cpx', 'h_misc', defines=d, unwind=60, timeout=300 if Q else 1800, bound='all operand bit patterns'))
         if not Q: obs.append(Ob('%s/scalar' % ft, 'cpx', 'h_scalar', defines=d, unwind=60, backend='cadical', timeout=3600, bound='all operand bit patterns'))
         if t == 'f' or not Q:
